@@ -140,6 +140,10 @@ def run_ops_mesh(case, r):
         before = snapshot()
         if kind in (0, 1, 2):  # binary with mesh / scalar / ndarray
             other = [names[b], float(rng.standard_normal()) if not case['cplx'] else complex(rng.standard_normal(), rng.standard_normal()), rnd(fullshape)][kind]
+            if kind == 1 and rng.random() < 0.3:
+                # neutral and other special scalars: a shortcut for "nothing to do" must still hand out new storage
+                other = [0.0, 1.0, -1.0, 1, 0][int(rng.integers(0, 5))]
+                r.count('neutral_scalar_operations')
             opn = int(rng.integers(0, 3))
             res = [names[a] + other, names[a] - other, names[a] * other][opn]
             pa, po = names[a].view(np.ndarray), (other.view(np.ndarray) if isinstance(other, np.ndarray) else other)
@@ -151,7 +155,7 @@ def run_ops_mesh(case, r):
             r.check(not shares(res, names[a]) and not (kind == 0 and shares(res, names[b])), 'result-independent', f'{tag}: result of {what} shares memory with an operand')
             names[f'v{int(rng.integers(0, 4))}'] = res
         elif kind == 3:  # reflected scalar ops and unary minus
-            s = float(rng.uniform(0.5, 2))
+            s = float(rng.uniform(0.5, 2)) if rng.random() < 0.7 else [1.0, 0.0, -1.0][int(rng.integers(0, 3))]
             res = [s * names[a], s + names[a], -names[a], s - names[a]][int(rng.integers(0, 4))]
             unchanged(before, 'reflected/unary op')
             r.check(type(res) is cls and not shares(res, names[a]), 'result-type', f'{tag}: reflected/unary op returned {type(res).__name__} or aliases its operand')
@@ -315,6 +319,9 @@ def run_ops_particles(case, r):
             exp = [x - y for x, y in zip(bufs(names[a]), bufs(names[b]))]
         elif kind == 2:
             s = float(rng.uniform(-2, 2))
+            if rng.random() < 0.4:
+                s = [1.0, 0.0, -1.0, 2.0][int(rng.integers(0, 4))]
+                r.count('neutral_scalar_operations')
             res = s * names[a]
             exp = [s * x for x in bufs(names[a])]
         elif kind == 3:
